@@ -10,7 +10,7 @@ DESC = {
  "C05": ("MC_Core (footer matrix + foot-* edits) + CoreObj + MC_Builder c13 / c05b / c05g + MC_Parser c05 / c05p (`Inv_FootAssert`)", "replay over 29 footer pairs (prefix / extension / case / whitespace / '-' '_' / nested JSON / 255-256 / 65535-65536 bytes) incl. the accepting side; 2 048 wrong footers per protocol; independent base64url oracle on minted tokens; traces"),
  "C06": ("MC_Core (assertion matrix, `Hidden`) + MC_Pae + CoreObj + builder / parser families as C05", "replay; 2 048 wrong assertions per protocol; absence scan of the assertion (all base64 alignments), length independence; traces"),
  "C07": ("MC_Core (all 56 pairs verbatim + `relabel`) + MC_Parser c16r / c16pr", "replay through 24 entry points; re-parse histories with the relabelled copy of the accepted token on all protocols"),
- "C08": ("MC_Terms (term trees, `Inv_Binds`) + MC_CoreObj (`SegOK`)", "term evaluator pinned to 45 vectors; byte-identity / cross-verification; library vs vectors with hex keys; footer segment of re-used core builders"),
+ "C08": ("MC_Terms (term trees, `Inv_Binds`) + MC_CoreObj (`SegOK`, `SpecOK`)", "term evaluator pinned to 45 vectors; byte-identity / cross-verification; library vs vectors with hex keys; footer segment and specification token (`specof`) of every mint of re-used core builders"),
  "C09": ("MC_Shapes (93 834 shapes x 16 presentations, `Inv_NoPanicNoOk`)", "every shape x 48 entry-point calls under catch_unwind; prefixes, Unicode, multi-byte straddles, footer-content fuzz, 1 MiB; hex keys"),
  "C10": ("MC_Builder counter invariant", "BuilderTrace: nonce identity over long-lived objects (250 builds), footers of 0..1024 bytes and assertions, bit statistics and cross-thread distinctness in the spec"),
  "C11": ("MC_Parser c11 + c11t (clock) + simulated long histories", "ParserTrace; rendering space at stride 64 in 100-parse objects, wrap-point instants, implementation placeholders"),
